@@ -1,6 +1,6 @@
 /* rand_drv.c - conformance driver for librfn/rand.c (C17).
  *   Vectors seed nrandom   states with the real result, the updated seed and the 64-bit reference, one event each
- *   Sweep nproc            all 2^31-2 states against (uint64_t)16807*s % 0x7fffffff (the oracle TLC validated on the vectors) */
+ *   Sweep nproc            all 2^31-2 states against (uint64_t)16807*s % 0x7fffffff (the oracle TLC validated on the vp_vectors) */
 #define _GNU_SOURCE
 #include "drv.h"
 #include <sys/wait.h>
@@ -17,54 +17,54 @@ static uint32_t (*volatile p_rand31_r)(uint32_t *) = rand31_r;
 #define VP_DRAW(nm) static uint32_t __attribute__((noinline)) draw_##nm(uint32_t *nm) { return rand31_r(nm); }
 VP_NAMES(VP_DRAW)
 #define VP_ENT(nm) draw_##nm,
-static uint32_t (*const draws[])(uint32_t *) = { VP_NAMES(VP_ENT) };
-#define NDRAW (sizeof(draws) / sizeof(draws[0]))
-static void __attribute__((noinline)) stack_fill(int byte)
+static uint32_t (*const vp_draws[])(uint32_t *) = { VP_NAMES(VP_ENT) };
+#define vp_NDRAW (sizeof(vp_draws) / sizeof(vp_draws[0]))
+static void __attribute__((noinline)) vp_stack_fill(int byte)
 {
 	volatile unsigned char junk[8192];
 	for (unsigned i = 0; i < sizeof(junk); i++) junk[i] = (unsigned char)byte;
 }
-struct holder { char pad; uint32_t seeds[3]; };
+struct vp_holder { char pad; uint32_t seeds[3]; };
 
-static uint32_t ref(uint32_t s) { return (uint32_t)(((uint64_t)16807 * s) % 0x7fffffffu); }
-static void vec(uint32_t s)
+static uint32_t vp_ref(uint32_t s) { return (uint32_t)(((uint64_t)16807 * s) % 0x7fffffffu); }
+static void vp_vec(uint32_t s)
 {
 	/* where the caller keeps the state and how it reaches the generator varies from call to call */
 	static unsigned how;
 	uint32_t seed = s, r;
-	unsigned h = how++ % (NDRAW + 4);
-	if (h < NDRAW) { stack_fill(h & 1 ? 0xff : 0); r = draws[h](&seed); }
-	else if (h == NDRAW) r = p_rand31_r(&seed);
-	else if (h == NDRAW + 1) r = (rand31_r)(&seed);
-	else if (h == NDRAW + 2) {
+	unsigned h = how++ % (vp_NDRAW + 4);
+	if (h < vp_NDRAW) { vp_stack_fill(h & 1 ? 0xff : 0); r = vp_draws[h](&seed); }
+	else if (h == vp_NDRAW) r = p_rand31_r(&seed);
+	else if (h == vp_NDRAW + 1) r = (rand31_r)(&seed);
+	else if (h == vp_NDRAW + 2) {
 		uint32_t *heap = malloc(sizeof(*heap));
 		*heap = s; r = rand31_r(heap); seed = *heap; free(heap);
 	} else {
-		struct holder *hd = calloc(1, sizeof(*hd));
+		struct vp_holder *hd = calloc(1, sizeof(*hd));
 		hd->seeds[1] = s; r = rand31_r(&hd->seeds[1]); seed = hd->seeds[1];
 		if (hd->seeds[0] || hd->seeds[2] || hd->pad) r = 0;
 		free(hd);
 	}
 	printf("{\"e\":\"R\",\"s\":[%u,%u],\"r\":[%u,%u],\"seed\":[%u,%u],\"o\":[%u,%u]}\n", s >> 16, s & 0xffff, r >> 16, r & 0xffff,
-	       seed >> 16, seed & 0xffff, ref(s) >> 16, ref(s) & 0xffff);
+	       seed >> 16, seed & 0xffff, vp_ref(s) >> 16, vp_ref(s) & 0xffff);
 }
-static void vectors(long seedv, long nrandom)
+static void vp_vectors(long seedv, long nrandom)
 {
 	static const uint32_t bj[] = { 0, 1, 2, 32767, 32768, 65534, 65535 };
 	drv_srand(seedv);
-	for (uint32_t s = 1; s < 4096; s++) vec(s);
-	for (uint32_t k = 0; k < 32768; k += 37) for (int j = 0; j < 7; j++) { uint32_t s = k * 65536u + bj[j]; if (s && s < 0x7fffffffu) vec(s); }
-	vec(0x7ffffffeu); vec(0x7ffffffdu); vec(127773); vec(127772); vec(16807);
+	for (uint32_t s = 1; s < 4096; s++) vp_vec(s);
+	for (uint32_t k = 0; k < 32768; k += 37) for (int j = 0; j < 7; j++) { uint32_t s = k * 65536u + bj[j]; if (s && s < 0x7fffffffu) vp_vec(s); }
+	vp_vec(0x7ffffffeu); vp_vec(0x7ffffffdu); vp_vec(127773); vp_vec(127772); vp_vec(16807);
 	/* states whose folded sum lands next to 2^31-1 (the single conditional subtraction): search by trajectory + random */
 	uint32_t s = 1;
-	for (long i = 0; i < nrandom; i++) { vec(s); s = ref(s); }
-	for (long i = 0; i < nrandom; i++) { uint32_t x = (drv_rand() ^ (drv_rand() << 11)) & 0x7fffffffu; if (x && x != 0x7fffffffu) vec(x); }
+	for (long i = 0; i < nrandom; i++) { vp_vec(s); s = vp_ref(s); }
+	for (long i = 0; i < nrandom; i++) { uint32_t x = (drv_rand() ^ (drv_rand() << 11)) & 0x7fffffffu; if (x && x != 0x7fffffffu) vp_vec(x); }
 	for (long i = 0; i < nrandom; i++) {   /* results within +-2 of the reduction boundary: s = inverse(target) by stepping back is costly; sample hi-heavy seeds */
 		uint32_t x = 0x7fff0000u | (drv_rand() & 0xffff);
-		if (x != 0x7fffffffu) vec(x);
+		if (x != 0x7fffffffu) vp_vec(x);
 	}
 }
-static void sweep(int nproc)
+static void vp_sweep(int nproc)
 {
 	int fds[64][2];
 	for (int w = 0; w < nproc; w++) {
@@ -73,7 +73,7 @@ static void sweep(int nproc)
 			unsigned long long bad = 0, n = 0, first = 0;
 			uint32_t *heap = malloc(sizeof(*heap));
 			for (uint32_t s = 1 + w; s < 0x7fffffffu; s += nproc) {
-				uint32_t seed = s, r = rand31_r(&seed), e = ref(s);
+				uint32_t seed = s, r = rand31_r(&seed), e = vp_ref(s);
 				if ((r != e || seed != e || e == 0 || e >= 0x7fffffffu) && !bad++) first = s;
 				/* ... the external symbol, and a state that lives on the heap */
 				*heap = s;
@@ -100,8 +100,8 @@ int main(void)
 	drv_cmd_t c;
 	drv_install_handlers();
 	while (drv_read(&c, stdin)) {
-		if (drv_is(&c, "Vectors")) vectors(drv_arg(&c, 0), drv_arg(&c, 1));
-		else if (drv_is(&c, "Sweep")) { fflush(stdout); sweep(drv_arg(&c, 0)); }
+		if (drv_is(&c, "Vectors")) vp_vectors(drv_arg(&c, 0), drv_arg(&c, 1));
+		else if (drv_is(&c, "Sweep")) { fflush(stdout); vp_sweep(drv_arg(&c, 0)); }
 		else { fprintf(stderr, "rand_drv: unknown command %s\n", c.tok[0]); return 3; }
 	}
 	fflush(stdout);
